@@ -38,7 +38,7 @@ def lookahead(t, rec, case):
     worst = 0
     for ev in t.events:
         if ev.kind == "M" and isinstance(ev.chunk, bytes):
-            consumed += len(ev.chunk)
+            consumed += len(ev.chunk) if isinstance(ev.chunk, bytes) else 0
         d = ev.pulls - consumed
         worst = max(worst, d)
         rec.count("events_checked")
@@ -77,7 +77,7 @@ def check_base(base, rec, rng, thorough):
     spans = []
     pos = 0
     for ev in whole.mevents:
-        if ev.value is not None:
+        if ev.value is not None and isinstance(ev.chunk, bytes):
             spans.append((pos, pos + len(ev.chunk)))
             pos += len(ev.chunk)
         else:
